@@ -5,7 +5,7 @@ open PebblesVerif
 #print axioms C01_point_roundtrip_list
 #print axioms C01_point_roundtrip_list_noid
 #print axioms C01_point_roundtrip_obj
-#print axioms C01_point_hash_breaks
+#print axioms C01_point_hash_in_id
 #print axioms C01_eval_schema_independent
 #print axioms C01_eval_split
 #print axioms C01_eval_node_lookup
@@ -20,3 +20,5 @@ open PebblesVerif
 #print axioms C01_flat_list_instance
 #print axioms C01_flat_list_instance_dup
 #print axioms C01_flat_list_instance_empty
+#print axioms C01_find_selection_level_first
+#print axioms C01_find_selection_depth_first_shadowed
